@@ -381,8 +381,10 @@ class Run:
                   wall_s=round(wall, 2), violations=len(self.violations))
         if self.notes:
             ev["coverage"]["notes"] = self.notes
-        os.makedirs(EVID, exist_ok=True)
-        with open(os.path.join(EVID, self.pid + ".json"), "w") as fh:
+        # evidence describes runs against /repo itself; experiments against a scratch repository (VERIF_REPO) go elsewhere
+        evdir = EVID if os.path.realpath(REPO) == "/repo" else os.path.join(BUILD, "evidence-scratch")
+        os.makedirs(evdir, exist_ok=True)
+        with open(os.path.join(evdir, self.pid + ".json"), "w") as fh:
             json.dump(ev, fh, indent=1, sort_keys=True)
             fh.write("\n")
         listed = dict(known_findings(self.pid))
